@@ -210,6 +210,23 @@ def fam_death(rng, n, tag="death", three=False):
         if spect:
             s.ticks(9, 7, end, 16)
         how = rng.random()
+        if (not three) and rng.random() < 0.35:
+            # the survivor's simulation pauses around the moment of death: it only polls (picking up the
+            # victim's last inputs without simulating), the drop is registered - by disconnect_player or by
+            # the timeout - and only then it advances again
+            lat = s.cfg["lat"]
+            pause = (t_die - rng.choice([40, 100, 200]), t_die + s.cfg["timeout"] + rng.choice([100, 400]))
+            s.events = [e for e in s.events if not (e[2] == "tick 1" and pause[0] <= e[0] < pause[1])]
+            for tp in range(pause[0], pause[1], rng.choice([30, 50, 100])):
+                s.at(tp, "poll", 1)
+            if rng.random() < 0.6:
+                for h in range(players):
+                    if h % n_peers == victim - 1:
+                        s.at(t_die + lat + rng.choice([20, 60, 150]), "disc", 1, h)
+                        break
+            s.at(t_die, "kill", victim)
+            out.append(s)
+            continue
         if how < 0.7:
             s.at(t_die, "kill", victim)
         else:
@@ -471,5 +488,29 @@ def fam_paused_spectator(rng, n, tag="pause"):
         t0 = rng.randrange(600, 2000)
         pause = 128 * tick + rng.randrange(-120, 200)
         s.ticks(9, 7, 7000, 16, skip=[(t0, t0 + pause)])
+        out.append(s)
+    return out
+
+def fam_sparse_polls(rng, n, tag="gap"):
+    """the remote falls silent and the local application itself stops polling for a while, so that a
+    single poll may cross the notify delay, the timeout, or both at once"""
+    out = []
+    for i in range(n):
+        timeout = rng.choice([800, 1000, 2000]); notify = rng.choice([200, 300, 500])
+        s = Scen("%s_%d" % (tag, i), players=2, window=rng.choice([0, 2, 8]), lat=rng.choice([5, 20]), seed=rng.randrange(1 << 30),
+                 timeout=timeout, notify=notify, inputrun=2)
+        s.p2p(1, [0]); s.p2p(2, [1])
+        if rng.random() < 0.4:
+            s.spec(9, 1, 2); s.ticks(9, 7, 6000, 16)
+        t_sil = rng.randrange(700, 2000)
+        back = rng.random() < 0.4
+        if back:
+            s.link(2, 1, outages=[(t_sil, t_sil + rng.choice([notify + 50, timeout - 50, timeout + 300]))])
+            s.ticks(2, 3, 8000, 16)
+        else:
+            s.ticks(2, 3, t_sil, 16); s.at(t_sil, "kill", 2)
+        gap0 = t_sil + rng.choice([0, 50, notify - 20])
+        gap = rng.choice([notify - 50, notify + 50, timeout - 50, timeout + 50, timeout + 500, 2 * timeout])
+        s.ticks(1, 0, 8000, rng.choice([16, 16, 50]), skip=[(gap0, gap0 + gap)])
         out.append(s)
     return out
